@@ -97,9 +97,9 @@ class Ctx:
         fn = m.func(qual)
         return _inl.inlined(self.a, m, fn) if inline else fn
 
-    def inl(self, fn):
+    def inl(self, fn, keep=()):
         from . import inline as _inl
-        return _inl.inlined(self.a, fn._module, fn)
+        return _inl.inlined(self.a, fn._module, fn, keep=keep)
 
     def _where(self, node):
         if isinstance(node, tuple):
